@@ -8,6 +8,7 @@ import (
 	"fmt"
 	"io"
 	"net"
+	"sync"
 	"time"
 
 	"github.com/vapourismo/knx-go/knx/util"
@@ -26,6 +27,10 @@ type Socket interface {
 type TunnelSocket struct {
 	conn    net.Conn
 	inbound <-chan Service
+
+	// done is closed by Close, so that the receiver does not wait for a reader forever.
+	done chan struct{}
+	once sync.Once
 }
 
 // DialTunnelUDP creates a new Socket which can used to exchange KNXnet/IP packets with a single
@@ -48,9 +53,10 @@ func DialTunnelUDP(address string) (*TunnelSocket, error) {
 	conn.SetDeadline(time.Time{})
 
 	inbound := make(chan Service)
-	go serveUDPSocket(conn, addr, inbound)
+	done := make(chan struct{})
+	go serveUDPSocket(conn, addr, inbound, done)
 
-	return &TunnelSocket{conn, inbound}, nil
+	return &TunnelSocket{conn: conn, inbound: inbound, done: done}, nil
 }
 
 // DialTunnelTCP creates a new Socket which can used to exchange KNXnet/IP packets with a single
@@ -73,9 +79,10 @@ func DialTunnelTCP(address string) (*TunnelSocket, error) {
 	conn.SetDeadline(time.Time{})
 
 	inbound := make(chan Service)
-	go serveTCPSocket(conn, addr, inbound)
+	done := make(chan struct{})
+	go serveTCPSocket(conn, addr, inbound, done)
 
-	return &TunnelSocket{conn, inbound}, nil
+	return &TunnelSocket{conn: conn, inbound: inbound, done: done}, nil
 }
 
 // Send transmits a KNXnet/IP packet.
@@ -95,6 +102,7 @@ func (sock *TunnelSocket) Inbound() <-chan Service {
 
 // Close shuts the socket down. This will indirectly terminate the associated workers.
 func (sock *TunnelSocket) Close() error {
+	sock.once.Do(func() { close(sock.done) })
 	return sock.conn.Close()
 }
 
@@ -108,6 +116,10 @@ type RouterSocket struct {
 	conn    *net.UDPConn
 	addr    *net.UDPAddr
 	inbound <-chan Service
+
+	// done is closed by Close, so that the receiver does not wait for a reader forever.
+	done chan struct{}
+	once sync.Once
 }
 
 // ListenRouter creates a new Socket which can be used to exchange KNXnet/IP packets with
@@ -149,9 +161,10 @@ func ListenRouterOnInterface(ifi *net.Interface, multicastAddress string, multic
 	conn.SetDeadline(time.Time{})
 
 	inbound := make(chan Service)
-	go serveUDPSocket(conn, nil, inbound)
+	done := make(chan struct{})
+	go serveUDPSocket(conn, nil, inbound, done)
 
-	return &RouterSocket{conn, addr, inbound}, nil
+	return &RouterSocket{conn: conn, addr: addr, inbound: inbound, done: done}, nil
 }
 
 // Addr returns the multicast destination address.
@@ -176,6 +189,7 @@ func (sock *RouterSocket) Inbound() <-chan Service {
 
 // Close shuts the socket down. This will indirectly terminate the associated workers.
 func (sock *RouterSocket) Close() error {
+	sock.once.Do(func() { close(sock.done) })
 	return sock.conn.Close()
 }
 
@@ -185,7 +199,7 @@ func (sock *RouterSocket) LocalAddr() net.Addr {
 }
 
 // serveUDPSocket is the receiver worker for a UDP socket.
-func serveUDPSocket(conn *net.UDPConn, addr *net.UDPAddr, inbound chan<- Service) {
+func serveUDPSocket(conn *net.UDPConn, addr *net.UDPAddr, inbound chan<- Service, done <-chan struct{}) {
 	util.Log(conn, "Started worker")
 	defer util.Log(conn, "Worker exited")
 
@@ -222,12 +236,17 @@ func serveUDPSocket(conn *net.UDPConn, addr *net.UDPAddr, inbound chan<- Service
 			continue
 		}
 
-		inbound <- payload
+		// Hand the frame over, unless the socket is closed while nobody reads.
+		select {
+		case inbound <- payload:
+		case <-done:
+			return
+		}
 	}
 }
 
 // serveTCPSocket is the receiver worker for a TCP socket.
-func serveTCPSocket(conn *net.TCPConn, addr *net.TCPAddr, inbound chan<- Service) {
+func serveTCPSocket(conn *net.TCPConn, addr *net.TCPAddr, inbound chan<- Service, done <-chan struct{}) {
 	util.Log(conn, "Started worker")
 	defer util.Log(conn, "Worker exited")
 
@@ -279,6 +298,11 @@ func serveTCPSocket(conn *net.TCPConn, addr *net.TCPAddr, inbound chan<- Service
 			continue
 		}
 
-		inbound <- payload
+		// Hand the frame over, unless the socket is closed while nobody reads.
+		select {
+		case inbound <- payload:
+		case <-done:
+			return
+		}
 	}
 }
